@@ -300,6 +300,59 @@ class ViewWorld:
 
 ND, NG = 2, 2
 
+VP_HELPERS = {'sc': [('x_att_helper', 'x_att'), ('y_att_helper', 'y_att')], 'hi': [('x_att_helper', 'x_att')]}
+
+
+def _picker_snaps(w):
+    """the attribute pickers of the viewer state, in the snapshot format of family `combo`;
+    component ids: dataset i owns 3i (`x`), 3i+1, 3i+2 (pixel axes)"""
+    serial = {}
+    for i, d in enumerate(w.data):
+        ids = list(d.main_components) + list(d.pixel_component_ids)
+        for k, c in enumerate(ids):
+            serial[id(c)] = 3 * i + k
+    st = w.viewer.state
+    out = []
+    for hname, prop in VP_HELPERS[w.cls]:
+        h = getattr(st, hname)
+        F = ['F'] + [bool(getattr(h, FLAG_ATTR[f])) for f in ('numeric', 'datetime', 'categorical', 'pixel', 'world', 'derived', 'none')]
+        H = ['H']
+        for d in h._data:
+            H.append([w._d(d),
+                      ['m'] + [[serial.get(id(c), 'X'), KIND_ATOM[d.get_kind(c)]] for c in d.main_components],
+                      ['dv'] + [serial.get(id(c), 'X') for c in d.derived_components if c.parent is d],
+                      ['p'] + [serial.get(id(c), 'X') for c in d.pixel_component_ids],
+                      ['w'] + [serial.get(id(c), 'X') for c in d.world_component_ids]])
+        ch = []
+        for c in h.choices:
+            if c is None:
+                ch.append('N')
+            elif isinstance(c, ChoiceSeparator):
+                t = str(c)
+                if t in SEP:
+                    ch.append(SEP[t])
+                else:
+                    hit = [i for i, d in enumerate(w.data) if d.label == t]
+                    ch.append(['sd', hit[0]] if hit else 'X')
+            else:
+                ch.append(['c', serial.get(id(c), 'X')])
+        sel = getattr(st, prop)
+        out.append([F, H, ['c'] + ch, ['s', None if sel is None else serial.get(id(sel), 'X')], ['e', False], ['q', 0]])
+    return out
+
+
+def _run_vpick(case):
+    n, _nc, cls, ops = case
+    gc.disable()
+    w = ViewWorld(n, cls)
+    snaps = [[w.snapshot(), _picker_snaps(w)]]
+    for op in ops:
+        w.apply(op)
+        snaps.append([w.snapshot(), _picker_snaps(w)])
+    w.recycle()
+    w.keep.clear()
+    return snaps
+
 
 def _run_view(case):
     n, _nc, cls, ops = case
@@ -532,6 +585,32 @@ class ViewRandom(View):
             nd = rng.choice([2, 3])
             length = rng.randint(4, 15) if tier == "quick" else rng.randint(4, 40)
             yield [nd, nc, cls, random_view_seq(rng, length, nd, cls)]
+
+
+class VPick(View):
+    """the x / y attribute pickers of ScatterViewerState and HistogramViewerState, in situ"""
+    name = "vpick"
+    exhaustive = True
+    batch = 40
+    budget_share = 0.6
+
+    def cases(self, tier, rng):
+        nc = self.colors
+        k = 0
+        L = 3 if tier == "quick" else 4
+        for ops in view_sequences(VCORE, L):
+            if _canonical_view(ops):
+                yield [ND, nc, ('sc', 'hi')[k % 2], ops]
+                k += 1
+        for pre in view_sequences(VCORE, L - 1):
+            for x in VEXT + [['rst']]:
+                ops = pre + [list(x)]
+                if _valid_view(ops) and _canonical_view(ops):
+                    yield [ND, nc, 'sc' if x[0] == 'rst' else ('sc', 'hi')[k % 2], ops]
+                    k += 1
+        for i in range(150 if tier == "quick" else 6000):
+            cls = ('sc', 'hi')[i % 2]
+            yield [3, nc, cls, random_view_seq(rng, rng.randint(4, 12), 3, cls)]
 
 
 for _cls in (View, ViewRandom):
@@ -1309,16 +1388,24 @@ class Axes(Family):
         return {"construct": "1d-reference" if min(case[0]) < 2 else "axes"}
 
 
+VPick.run_impl = lambda self, case: _run_vpick(case)
+VPick.shrink = lambda self, case: _shrink_view(case)
+VPick.line = lambda self, case, pyout: sx(["vpick", case, pyout])
+VPick.nontrivial = lambda self, case, po: any(op[0] == 'vad' for op in case[3])
+VPick.signature = lambda self, case, po, res: {"construct": "vpick"}
+
+
 PROP = Property(
     id="C18",
     title="Viewers and attribute pickers mirror the collection",
     theorems=["C18.viewer_inv_init", "C18.viewer_step_inv", "C18.viewer_reachable_inv", "C18.viewer_reachable_spec",
               "C18.viewer_mirrors_collection", "C18.viewer_layers_plain", "C18.restore_layers",
               "C18.refresh_sound_complete", "C18.refresh_order", "C18.refresh_nodup", "C18.refresh_none",
-              "C18.selection_valid_after_refresh", "C18.selection_valid", "C18.explicit_none_accepted",
+              "C18.selection_valid_after_refresh", "C18.selection_valid", "C18.picker_after_refresh_ok",
+              "C18.explicit_none_accepted",
               "C18.combo_history_valid", "C18.dcombo_history_valid",
               "C18.image_axes_distinct", "C18.image_axes_spec", "C18.image_1d_reference_crashes"],
-    families=[Axes(), Combo(), ComboRandom(), DCombo(), View(), ViewRandom()],
+    families=[Axes(), Combo(), ComboRandom(), DCombo(), VPick(), View(), ViewRandom()],
     trusted_base=["the `echo` callback-property library (SelectionCallbackProperty._choices_updated / __set__, delay_callback, CallbackList) is modelled (its selection rule) or assumed (callback ordering), validated by the correspondence families",
                   "matplotlib / astropy WCSAxes drawing is stubbed out in the harness process (FigureCanvasAgg.draw, draw_idle): only the layer bookkeeping of the viewers is under test",
                   "GlueSerializer / GlueUnSerializer are exercised for viewer save + restore, their effect on the bookkeeping is modelled (restored objects stand for the saved ones)",
@@ -1328,6 +1415,6 @@ PROP = Property(
                  "x_att / y_att setters are called with pixel axes of the current reference data; explicit selections of None only while None is on offer (echo accepts None unconditionally: theorem explicit_none_accepted)",
                  "snapshots taken while a hub delay block is open are compared with the model but not judged by the Spec (the helper has not been told yet, by design)",
                  "restore is checked for the scatter and image viewers; histogram / profile viewers cannot be restored on this tree (known finding C18c = C12's F12)"],
-    rule="view: one extended viewer op (add_subset / remove_subset / remove_layer / state.layers.remove / restore / second-dataset ops) at every position of every core sequence (append/remove x2 datasets, new group, remove group, add_data x2, remove_data) of length 2 (quick) / 3 (thorough); every core sequence of length 4 / 5; every sequence of length 5 / 7 over a 5-letter one-dataset alphabet; viewer class rotating by case; viewr: seeded random histories of length 4-15 / 4-40 over 2-3 datasets, up to 3 groups, with restores. combo: every sequence of 3 ops over a 25-letter core alphabet after helper.append_data + every pair over the full 39-letter alphabet after three prefixes (thorough: triples over the full alphabet, 4-sequences over 19 letters); combor: random length 4-15 / 4-40. dcombo: every sequence of length 3-4 / 4-5 over 12-15 letters for both helper classes and two initial collections. axes: every setter sequence of length 3 (thorough 4, all three coordinate kinds) on a 3-d and a 2-d reference dataset, every sequence of length 2 (thorough 4) over the full 18-letter alphabet incl. reference-data changes and layers coming and going, samples of the next length. non-trivial = the history touches both sides (e.g. add_data and a collection change).",
+    rule="view: one extended viewer op (add_subset / remove_subset / remove_layer / state.layers.remove / restore / second-dataset ops) at every position of every core sequence (append/remove x2 datasets, new group, remove group, add_data x2, remove_data) of length 2 (quick) / 3 (thorough); every core sequence of length 4 / 5; every sequence of length 5 / 7 over a 5-letter one-dataset alphabet; viewer class rotating by case; viewr: seeded random histories of length 4-15 / 4-40 over 2-3 datasets, up to 3 groups, with restores. vpick: the x/y attribute pickers of ScatterViewerState / HistogramViewerState read in situ after every step of every core viewer history of length 3 / 4, one extended op after every core history of length 2 / 3, 150 / 6000 random histories. combo: every sequence of 3 ops over a 25-letter core alphabet after helper.append_data + every pair over the full 39-letter alphabet after three prefixes (thorough: triples over the full alphabet, 4-sequences over 19 letters); combor: random length 4-15 / 4-40. dcombo: every sequence of length 3-4 / 4-5 over 12-15 letters for both helper classes and two initial collections. axes: every setter sequence of length 3 (thorough 4, all three coordinate kinds) on a 3-d and a 2-d reference dataset, every sequence of length 2 (thorough 4) over the full 18-letter alphabet incl. reference-data changes and layers coming and going, samples of the next length. non-trivial = the history touches both sides (e.g. add_data and a collection change).",
     partial_note="Partial for per-viewer State subclasses: 'all callback-property values of State subclasses' is covered only as far as ImageViewerState's axis attributes, the viewers' layers list and the SelectionCallbackProperty rule; other callback properties (limits, colours, ...) are not modelled.",
 )
